@@ -10,7 +10,7 @@ from . import c06, common, fam
 from .c14 import SplitReal
 
 RELAX = ['cap', 'rate', 'level_lo', 'level_hi', 'end_level', 'max_take', 'min_take', 'hold', 'balance']
-MTUS = ('h', 'd', 'min', '15min')
+MTUS = ('h', 'd', 'min', 's')
 
 
 def run(tier, seed):
